@@ -135,6 +135,9 @@ func LongBody(cfg LongCfg, st *LongStats) func(c *mc.Chooser) *mc.Failure {
 			}
 			i, present := has(o.A)
 			var got, want bool
+			stepDone := mc.InFlight(func() mc.Case {
+				return mc.Case{Harness: "tree-long", Config: mc.J(cfg), Trace: mc.J([]mc.Dev{}), Msg: fmt.Sprintf("%v at step %d of the history (deviations not recorded)", o, si), Step: si}
+			})
 			switch o.K {
 			case "add":
 				got = t.Add(Elem{o.A, o.T})
@@ -150,6 +153,7 @@ func LongBody(cfg LongCfg, st *LongStats) func(c *mc.Chooser) *mc.Failure {
 				got = t.Remove(Elem{K: o.A})
 				want = present
 			}
+			stepDone()
 			if got != want {
 				return mc.Failf(si, "%v returned %v, want %v", o, got, want)
 			}
